@@ -58,6 +58,8 @@ def concretize(v, model=None):
         return z3.is_true(ev(v.t))
     if isinstance(v, SymInt):
         return ev(v.t).as_signed_long()
+    if isinstance(v, sym.SymZ):
+        return ev(v.t).as_long()
     if isinstance(v, SymFloat):
         bits = ev(v.bits).as_long() if model is not None else v.bits.as_long()
         return {"f64": _canon_nan(bits)}
@@ -153,6 +155,19 @@ class Env:
             t = z3.BitVec(name, W)
             self.ctx.add(z3.And(t >= lo, t <= hi))
             v = SymInt(t, (lo, hi))
+        else:
+            v = builtins.int(self._given(name))
+            assert lo <= v <= hi
+        self.vars[name] = v
+        return v
+
+    def zint(self, name, lo, hi):
+        """integer in [lo, hi] on the mathematical-integer (LIA) back end: for pure arithmetic kernels"""
+        self._new(name, ["zint", lo, hi])
+        if self.sym:
+            t = z3.Int(name)
+            self.ctx.add(z3.And(t >= lo, t <= hi))
+            v = sym.SymZ(t)
         else:
             v = builtins.int(self._given(name))
             assert lo <= v <= hi
